@@ -89,7 +89,7 @@ func c11One(r *Run, snap *slog.VerifRegistry, ops []Op, kind string) {
 		events = nil
 		e.SetWriter(pool[1])
 		e.SetErrorWriter(pool[1])
-		e.Print("probe")
+		e.Print("probe\nwith a second line") // (several lines: a coloured record leaves its continuation lines in the context)
 		sh := "?"
 		if len(events) > 0 {
 			sh = shapeOf(events[len(events)-1].Payload)
